@@ -196,6 +196,9 @@ def features(ast) -> tuple:
                                 f.add("empty_break")
                                 if len(nb) >= 2:
                                     f.add("empty_break_beside_break")
+                                    if last and (is_top or not tail_of_loop):
+                                        f.add("empty_break_beside_break_"
+                                              "seqlast")
                     for x in body:
                         if isinstance(x, Fork):
                             for b in x.branches:
@@ -206,15 +209,25 @@ def features(ast) -> tuple:
                                             f.add("break_multi_loop_last")
                                         if last and tailpos:
                                             f.add("break_multi_jobtail")
+                                    # (an empty break is a problem in
+                                    # job-tail position, see below; or, when
+                                    # no job iterates the loop, at the end
+                                    # of a sequence: it degenerates to an
+                                    # XOR with an empty alternative)
                                     if len(b.items) == 1 and last and (
                                             is_top or not tail_of_loop):
-                                        f.add("empty_break_loop_last")
+                                        f.add("empty_break_seqlast")
                     if in_loop:
                         f.add("break_in_nested")
                     if last and tail_of_loop:
                         f.add("break_loop_tail_of_loop")
                         if tailpos:
                             f.add("break_loop_tail_of_loop_jobtail")
+                        if any(isinstance(x, Fork) and any(
+                                len(b.items) == 1
+                                and isinstance(b.items[0], Break)
+                                for b in x.branches) for x in body):
+                            f.add("empty_break_loop_tail_of_loop")
                     if last and tail_via_fork:
                         f.add("break_loop_tail_of_fork_ending_loop")
                 if depth > 0 and not in_loop:
@@ -269,7 +282,7 @@ def corpus(repo):
 # --------------------------------------------------------------------------
 def loop_shapes():
     """Every combination of: prefix event or none; loop at top level / in an
-    AND branch / in an XOR branch; event after the loop or none; body head
+    AND branch / in an XOR branch / as the tail of an enclosing loop body; event after the loop or none; body head
     (event; event + inner loop directly in front of the decision; event +
     inner loop + event; event + AND fork + event; event + XOR fork + event;
     event + AND fork whose two branches end in the same event type);
@@ -278,11 +291,12 @@ def loop_shapes():
     none.  1320 definitions with distinct names; returned as (tag, ast)."""
     import itertools
     out = []
-    heads = ("ev", "loop_adjacent", "loop_sep", "and", "xor", "and_same_end")
+    heads = ("ev", "loop_adjacent", "loop_sep", "and", "xor", "and_same_end",
+             "inner_loop_first")
     breaks = ((), (0,), (1,), (2,), (1, 1), (0, 1))
     for pre, ctx, post, head, brk, cont, tail in itertools.product(
-            (1, 0), ("top", "AND", "XOR"), (1, 0), heads, breaks, (1, 2),
-            (0, 1)):
+            (1, 0), ("top", "AND", "XOR", "LOOP"), (1, 0), heads, breaks,
+            (1, 2), (0, 1)):
         if not brk and cont == 2 and tail == 0 and head == "ev":
             pass
         n = [0]
@@ -292,6 +306,11 @@ def loop_shapes():
             return Ev(f"E{n[0]}")
         items = [ev()] if pre else []
         body = [ev()]
+        if head == "inner_loop_first" and brk == (0, 1):
+            continue        # F-H shape on top of a non-F head: not generated
+        if head == "inner_loop_first":
+            # nested loops that share their first event (outside F)
+            body = [Loop(Seq((ev(), ev()))), ev(), ev()]
         if head == "loop_adjacent":
             body.append(Loop(Seq((ev(),))))
         elif head == "loop_sep":
@@ -320,7 +339,13 @@ def loop_shapes():
                 continue            # no decision: one variant is enough
         loop = Loop(Seq(tuple(body)))
         inner = [loop] + ([ev()] if post else [])
-        if ctx == "top":
+        if ctx == "LOOP":
+            # the loop is the tail of an enclosing loop's body
+            if not pre or not post:
+                continue
+            items.append(Loop(Seq(tuple([ev(), loop]))))
+            items.append(ev())
+        elif ctx == "top":
             if not pre and not items:
                 items = []
             items += inner
@@ -431,4 +456,32 @@ def break_branch_shapes():
             items = [a] + inner
         out.append((f"cont{cont}-brk{brk}-nested{nested}-tail{tail}-"
                     f"post{post2}", Seq(tuple(items))))
+    return out
+
+
+def deep_loop_fork_shapes():
+    """A loop whose body ends in a fork, as the last element of a fork branch
+    that is nested in a further fork (the merge event is shared with other
+    parallel branches):  A; F1{ P; F2{ Q; repeat{B; F3{C|D}} | R } | S }; Z
+    for F1, F2 in {AND, OR}, F3 in {AND, OR, XOR}; and the sibling variant
+    A; F1{ P; repeat{B; F3{C|D}} | S; F4{T|U} }; Z  (a sibling branch ends in
+    its own fork)."""
+    import itertools
+    out = []
+    for f1, f2, f3 in itertools.product(("AND", "OR"), ("AND", "OR"),
+                                        ("AND", "OR", "XOR")):
+        n = [0]
+
+        def ev():
+            n[0] += 1
+            return Ev(f"E{n[0]}")
+        lp = Loop(Seq((ev(), Fork(f3, (Seq((ev(),)), Seq((ev(),)))))))
+        inner = Fork(f2, (Seq((ev(), lp)), Seq((ev(),))))
+        ast = Seq((ev(), Fork(f1, (Seq((ev(), inner)), Seq((ev(),)))), ev()))
+        out.append((f"nested-{f1}-{f2}-{f3}", ast))
+        n[0] = 0
+        lp = Loop(Seq((ev(), Fork(f3, (Seq((ev(),)), Seq((ev(),)))))))
+        sib = Fork(f2, (Seq((ev(),)), Seq((ev(),))))
+        ast = Seq((ev(), Fork(f1, (Seq((ev(), lp)), Seq((ev(), sib)))), ev()))
+        out.append((f"sibling-{f1}-{f2}-{f3}", ast))
     return out
